@@ -1762,7 +1762,7 @@ impl<'a, E: quiver_core::effects::Effect> Compiler<'a, E> {
             module_cache: &mut *self.module_cache,
             package: &self.current_package,
         };
-        let (bindings, binding_sets, result_type) = pattern::analyze_pattern(
+        let (bindings, binding_sets, result_type, matched_type) = pattern::analyze_pattern(
             &mut env,
             self.program,
             &pattern,
@@ -1854,12 +1854,14 @@ impl<'a, E: quiver_core::effects::Effect> Compiler<'a, E> {
 
         // Apply narrowing to the matched value's provenance if the pattern narrows the type.
         // This is done here on the success path - the type has been narrowed by the pattern.
-        // Note: result_type is the narrowed type from analyze_pattern.
-        if !self.is_never(result_type) && !self.is_nil(result_type) {
+        // Note: matched_type is the narrowed type from analyze_pattern — not result_type, which
+        // also carries `[]` when the pattern may fail and would wrongly keep (or, through the
+        // complement below, wrongly remove) nil in the value's type.
+        if !self.is_never(matched_type) && !self.is_nil(matched_type) {
             apply_narrowing(
                 &mut self.scopes,
                 &value_provenance,
-                result_type,
+                matched_type,
                 self.program,
             );
         }
@@ -1905,7 +1907,7 @@ impl<'a, E: quiver_core::effects::Effect> Compiler<'a, E> {
                 );
             } else {
                 // Standard whole-value narrowing
-                n.record(&value_provenance, value_type, result_type, self.program);
+                n.record(&value_provenance, value_type, matched_type, self.program);
             }
         }
 
